@@ -70,7 +70,10 @@ pub fn run(cfg: &Cfg, rep: &mut Report) {
       continue;
     }
     let pipe = random_pipe(&mut r, &gcfg);
-    let flavor = if r.chance(1, 3) { Flavor::Threads } else { Flavor::Local };
+    let flavor = [Flavor::Local, Flavor::Threads, Flavor::Local, Flavor::LocalPool][r.below(4)];
+    if flavor == Flavor::LocalPool {
+      rep.count("runs_on_the_real_LocalPool", 1);
+    }
     let policy = if r.chance(1, 2) { Policy::Fifo } else { Policy::Any };
     let late = r.chance(1, 2);
     let seed = r.next();
